@@ -362,6 +362,9 @@ func (o *orun) snapOwn() []int {
 
 // diffOutside returns the first byte of G that differs between a and b and lies outside [lo, hi) of the struct.
 func (o *orun) diffOutside(a, b []byte, lo, hi uintptr) (int, bool) {
+	if bytes.Equal(a, b) {
+		return 0, false
+	}
 	for i := range a {
 		if a[i] != b[i] {
 			off := uintptr(i) - o.s.VOff // wraps for bytes of the leading sentinel: then >= hi
@@ -386,7 +389,8 @@ func (o *orun) lens(ri int, q *OReq, e *oReq, i int, full bool) {
 	for p, cell := range o.own {
 		ownPos[cell] = p
 	}
-	for _, st := range o.states(full) {
+	// a container with a huge array costs ~100 us per byte image: the full product of cell states is kept for ordinary structs
+	for _, st := range o.states(full && s.VSize <= 4096) {
 		for k := 0; k < 3; k++ {
 			o.restore(o.clean)
 			o.setState(st)
